@@ -585,9 +585,20 @@ class WOFFDirectoryEntry(DirectoryEntry):
         if self.length == self.origLength:
             data = rawData
         else:
-            assert self.length < self.origLength
-            data = zlib.decompress(rawData)
-            assert len(data) == self.origLength
+            if self.length > self.origLength:
+                raise TTLibError(
+                    "corrupt WOFF table directory: compressed length %d exceeds "
+                    "original length %d" % (self.length, self.origLength)
+                )
+            try:
+                data = zlib.decompress(rawData)
+            except zlib.error as e:
+                raise TTLibError("corrupt WOFF table data: %s" % e) from e
+            if len(data) != self.origLength:
+                raise TTLibError(
+                    "corrupt WOFF table data: expected %d bytes but got %d"
+                    % (self.origLength, len(data))
+                )
         return data
 
     def encodeData(self, data):
@@ -618,20 +629,26 @@ class WOFFFlavorData:
             if reader.metaLength:
                 reader.file.seek(reader.metaOffset)
                 rawData = reader.file.read(reader.metaLength)
-                assert len(rawData) == reader.metaLength
+                if len(rawData) != reader.metaLength:
+                    raise TTLibError("unexpected end of WOFF metadata block")
                 data = self._decompress(rawData)
-                assert len(data) == reader.metaOrigLength
+                if len(data) != reader.metaOrigLength:
+                    raise TTLibError("corrupt WOFF metadata block (bad length)")
                 self.metaData = data
             if reader.privLength:
                 reader.file.seek(reader.privOffset)
                 data = reader.file.read(reader.privLength)
-                assert len(data) == reader.privLength
+                if len(data) != reader.privLength:
+                    raise TTLibError("unexpected end of WOFF private data block")
                 self.privData = data
 
     def _decompress(self, rawData):
         import zlib
 
-        return zlib.decompress(rawData)
+        try:
+            return zlib.decompress(rawData)
+        except zlib.error as e:
+            raise TTLibError("corrupt WOFF metadata block: %s" % e) from e
 
 
 def calcChecksum(data):
